@@ -154,7 +154,9 @@ func negotiateFeatures(ctx context.Context, s *Session, first, ws bool, features
 		// is in the features list to be negotiated) and we're not already on a
 		// secure connection, try it anyways to prevent downgrade attacks per RFC
 		// 7590.
-		doStartTLS = first && !advertisedStartTLS && s.State()&Secure != Secure && doStartTLS
+		// An informational feature in the StartTLS namespace (one without a
+		// Negotiate function) cannot be attempted.
+		doStartTLS = first && !advertisedStartTLS && s.State()&Secure != Secure && doStartTLS && startTLS.Negotiate != nil
 
 		switch {
 		case doStartTLS:
